@@ -543,3 +543,46 @@ def S4_E1_error_arm(ctx):
            site=site(f, bad1[0][1]) if bad1 else f.loc(f.b['lo']),
            what='an attempt that started before its predecessors committed may have read stale state; if the head test is evaluated only after the attempt, a stale speculative failure is reported as the block\'s error although in-order execution succeeds')
     # fingerprint for known-findings: instance name is stable
+
+
+def S7_replay_entry(ctx):
+    """replay_uncommitted_suffix: refuses only on an observed prefix mismatch, returns early only when nothing is left to
+    replay, and the sequential entry points start from boundary 0"""
+    f = ctx.method('scheduler::Scheduler<DB>', 'replay_uncommitted_suffix')
+    bad = []
+    rows = set()
+    is_start = lambda t: t[0] == 'call' and callee_matches(t[1], 'CommittedPrefixEnd::index') and t[2] == (('arg', 2),)
+    is_size = lambda t: is_field(strip(t), 'Scheduler.block_size')
+    for p in feasible(f.paths()):
+        ret = [e for e in p.events if e.kind == 'ret'][0].d['value']
+        built = calls(p, 'executor::build_evm')
+        rel = lambda pred: holds_rel(p, len(p.events), pred)
+        mismatch = rel(lambda op, l, r: op == 'Gt' and is_start(l) and is_size(r)) or \
+            rel(lambda op, l, r: op == 'Ne' and ((is_start(l) and has_call(r, '::len')) or (is_start(r) and has_call(l, '::len'))))
+        done = rel(lambda op, l, r: op == 'Eq' and is_start(l) and is_size(r))
+        if not built:
+            if ret[0] == 'agg' and ret[2] == 'Ok':
+                rows.add('nothing-left')
+                if not done:
+                    bad.append('returns Ok without replaying although the committed boundary was not found at the end of the block')
+            elif ret[0] == 'agg' and ret[2] == 'Err':
+                rows.add('refused')
+                if not mismatch:
+                    bad.append('refuses to replay although no mismatch between the committed boundary and the stored outcomes was observed')
+        else:
+            rows.add('replay')
+            if mismatch or done:
+                bad.append('replays although the prefix mismatches or nothing is left')
+            ex = calls(p, 'execute_sequential_suffix')
+            if not ex or not is_start(strip(ex[0].d['args'][1])):
+                bad.append('the replay does not start at the committed boundary')
+    ctx.ob('S7', f, 'replay-entry-table', rows == {'nothing-left', 'refused', 'replay'} and not bad, '; '.join(sorted(set(bad))) + f' rows={sorted(rows)}', site=f.loc(f.b['lo']),
+           what='start == block_size ⇒ Ok with nothing to do; boundary past the block or outcomes != boundary ⇒ refuse; otherwise replay the suffix from the boundary')
+    z = [b for b in ctx.facts.bodies if b['kind'] == 'const' and b['fn'].endswith('CommittedPrefixEnd::ZERO')]
+    okz = False
+    for b in z:
+        for p in ctx.fn(b).paths():
+            r = [e for e in p.events if e.kind == 'ret']
+            if r and r[0].d['value'][0] == 'agg' and r[0].d['value'][3] == (('const', '0_usize'),):
+                okz = True
+    ctx.ob('S7', 'CommittedPrefixEnd::ZERO', 'zero-boundary-is-zero', okz, '', what='force_sequential / small blocks / fallback_sequential replay from CommittedPrefixEnd::ZERO; any other value skips the first transactions')
